@@ -26,6 +26,8 @@ EXPECT = {
     "seed-C12-d": ["C12", "C05"], "seed-C13-d": ["C13"], "seed-C14-d": ["C14"], "seed-C16-d": ["C16", "C05"],
     "seed-C05-e": ["C05"], "seed-C07-e": ["C07"], "seed-C08-e": ["C08"], "seed-C10-e": ["C10"], "seed-C11-e": ["C11", "C06"], "seed-C15-e": ["C15"],
     "seed-C17-e": ["C17"], "seed-C18-e": ["C18"], "seed-C19-e": ["C19"],
+    "seed-C02-f": ["C02"], "seed-C08-f": ["C08"], "seed-C12-f": ["C12", "C02"], "seed-C13-f": ["C13"], "seed-C14-f": ["C14"], "seed-C17-f": ["C17"],
+    "seed-C19-f": ["C19"],
 }
 
 
